@@ -1,7 +1,8 @@
 ------------------------- MODULE Trace_ActionTree -------------------------
 (* Trace validation for C17.  The driver (harness/c17_flow/driver.cpp) builds the real tree of each  *)
 (* program, drives the loop pass by pass and records                                                 *)
-(*   {"e":"Reset","prog":[...]}            a new execution: the program                              *)
+(*   {"e":"Prog","prog":[...]}             a new execution: the program                              *)
+(*   {"e":"Reset"}                         end of the execution                                      *)
 (*   {"e":"Ctl","op":..,"ret":..,"mid":b}  a control call on the root and its return value; mid: made   *)
 (*                                         from a task in the middle of a batch (after a snapshot)    *)
 (*   {"e":"Tick"}                          the virtual clock advanced by one unit, probe leaves counted *)
@@ -30,7 +31,7 @@ Starts(sq) == SelectSeq(sq, LAMBDA x : x[1] = "start")
 Cnt(sq, x) == Cardinality({i \in DOMAIN sq : sq[i] = x})
 IsPrefix(a, b) == Len(a) <= Len(b) /\ \A i \in 1..Len(a) : a[i] = b[i]
 RECURSIVE NextSnap(_)
-NextSnap(i) == IF i > Len(Log) THEN 0 ELSE IF Log[i].e = "Snap" THEN i ELSE IF Log[i].e = "Reset" THEN 0 ELSE NextSnap(i + 1)
+NextSnap(i) == IF i > Len(Log) THEN 0 ELSE IF Log[i].e = "Snap" THEN i ELSE IF Log[i].e \in {"Reset", "Prog"} THEN 0 ELSE NextSnap(i + 1)
 \* the model's event log can still become the event list of the next snapshot
 Compatible(lg, i) ==
   LET k == NextSnap(i) IN
@@ -53,8 +54,10 @@ SnapMatches ==
 Dummy == <<[k |-> "Leaf", m |-> 0, c |-> <<>>, p |-> 0, o |-> "never", d |-> 0, tag |-> 0, to |-> 0, n |-> 0]>>
 TInit == /\ prog = Dummy /\ S = InitS(Dummy) /\ nctl = 0 /\ lastop = "init" /\ l = 1 /\ sil = 0 /\ open = FALSE
 
+TProg == /\ IsEv("Prog")
+         /\ prog' = Ev.prog /\ S' = InitS(Ev.prog) /\ nctl' = 0 /\ lastop' = "init" /\ sil' = 0 /\ open' = FALSE
 TReset == /\ IsEv("Reset")
-          /\ prog' = Ev.prog /\ S' = InitS(Ev.prog) /\ nctl' = 0 /\ lastop' = "init" /\ sil' = 0 /\ open' = FALSE
+          /\ prog' = Dummy /\ S' = InitS(Dummy) /\ nctl' = 0 /\ lastop' = "init" /\ sil' = 0 /\ open' = FALSE
 \* a control call directly follows a snapshot or another call (no silent step since): what it causes is told apart from what preceded it
 TCtl == IsEv("Ctl") /\ sil = 0 /\ Ev.ret = Ret(Ev.op) /\ Ctl(Ev.op) /\ Compatible(S'.log, l')
         /\ open' = (open \/ Ev.mid) /\ UNCHANGED sil
@@ -66,7 +69,7 @@ Silent(A) == open /\ A /\ sil < MaxSilent /\ sil' = sil + 1 /\ l <= Len(Log) /\ 
 TDeliver == Silent(Deliver)
 TFire == Silent(LeafCompletes)
 TTimeout == Silent(ActionTimeout)
-TNext == TReset \/ TCtl \/ TTick \/ TSnap \/ TDeliver \/ TFire \/ TTimeout
+TNext == TProg \/ TReset \/ TCtl \/ TTick \/ TSnap \/ TDeliver \/ TFire \/ TTimeout
 TSpec == TInit /\ [][TNext]_tvars
 
 Progress == TLCSet(42, IF l > TLCGet(42) THEN l ELSE TLCGet(42))
